@@ -1777,7 +1777,29 @@ class ISLaSolver:
                     semantic_predicate_formulas[k].substitute_expressions(substitution),
                 )
 
-            result = SolutionState(new_constraint, result.tree.substitute(substitution))
+            new_tree = result.tree.substitute(substitution)
+
+            def moves_nodes(orig: DerivationTree, repl: DerivationTree) -> bool:
+                repl_paths = {node.id: path for path, node in repl.paths()}
+                return any(
+                    repl_paths.get(node.id, path) != path for path, node in orig.paths()
+                )
+
+            if any(
+                isinstance(orig, DerivationTree) and moves_nodes(orig, repl)
+                for orig, repl in substitution.items()
+            ):
+                # The predicate did not only expand or replace a subtree, but moved
+                # existing nodes to another position (e.g., `count` embeds the tree
+                # into a bigger one to obtain more occurrences). Universal quantifiers
+                # that were already eliminated never saw the nodes added around them.
+                # As for the tree insertion for existential quantifiers, we thus add
+                # the original constraint for the new tree.
+                new_constraint = new_constraint & self.top_constant.map(
+                    lambda c: self.formula.substitute_expressions({c: new_tree})
+                ).value_or(sc.true())
+
+            result = SolutionState(new_constraint, new_tree)
             assert self.graph.tree_is_valid(result.tree)
 
         return Maybe.from_optional([result] if changed else None)
